@@ -1,6 +1,7 @@
 package main
 
 import (
+	"go/types"
 	"fmt"
 	"strings"
 	"go/token"
@@ -11,12 +12,13 @@ import (
 func init() { registry["C14"] = checkC14 }
 
 func checkC14(c *Ctx, r *Report) {
-	r.Explain = "Decides structural necessary conditions of attachment integrity and lifetime: (R1) content addressing — the storage key and the advertised digest of a new attachment are computed from the very bytes that are stored, and the advertised length is their length; (R2) an attachment document is deleted by the write path only after the commit succeeded, only when obsolete-attachment removal was not disabled (cross-cluster versioning, or a failed leaf scan before or after the write), and only on the miss edge of the lookup in the set of attachments still referenced by any leaf computed after the write; that set is complete or an error — every load/parse failure while collecting leaf attachments propagates; (R3) attachment documents are deleted only by the listed owners; (R4) a replication peer can fetch an attachment only while the allow-list counter for it is positive, every path after registering a revision's attachments on the allow-list reaches their removal (failed send, and every exit of the response handler), and the allow-list is only touched under its lock.; (R5) the pre-write scan of the leaves' attachments is repeated on every CAS attempt, before the update is computed. Not decided: byte identity through all APIs, histories that share digests across documents, completeness of clean-up."
+	r.Explain = "Decides structural necessary conditions of attachment integrity and lifetime: (R1) content addressing — the storage key and the advertised digest of a new attachment are computed from the very bytes that are stored, and the advertised length is their length; (R2) an attachment document is deleted by the write path only after the commit succeeded, only when obsolete-attachment removal was not disabled (cross-cluster versioning, or a failed leaf scan before or after the write), and only on the miss edge of the lookup in the set of attachments still referenced by any leaf computed after the write; that set is complete or an error — every load/parse failure while collecting leaf attachments propagates; (R3) attachment documents are deleted only by the listed owners; (R4) a replication peer can fetch an attachment only while the allow-list counter for it is positive, every path after registering a revision's attachments on the allow-list reaches their removal (failed send, and every exit of the response handler), and the allow-list is only touched under its lock.; (R5) the pre-write scan of the leaves' attachments is repeated on every CAS attempt, before the update is computed; (R6) the document-level attachment metadata (of the current revision) is replaced only by a revision that becomes current. Not decided: byte identity through all APIs, histories that share digests across documents, completeness of clean-up."
 	c14R1(c, r)
 	c14R2(c, r)
 	c14R3(c, r)
 	c14R4(c, r)
 	c14R5(c, r)
+	c14R6(c, r)
 }
 
 func c14R1(c *Ctx, r *Report) {
@@ -430,5 +432,62 @@ func c14R5(c *Ctx, r *Report) {
 	}
 	if n == 0 {
 		r.Fail("C14-R5", "fn=updateAndReturnDoc$cas-callback", c.Pos(top.Pos()), "the CAS callback computing the update was not found")
+	}
+}
+
+// C14-R6: the document-level attachment metadata describes the CURRENT (winning) revision. When a newly added revision does not
+// become the winner (a hidden, losing leaf) it must not replace that metadata; the losing revision's attachments belong with its own
+// stored body.
+func c14R6(c *Ctx, r *Report) {
+	r.Rule("C14-R6", "E2 pathrules", "storeOldBodyInRevTreeAndUpdateCurrent replaces the document-level attachments with the new revision's only on the edge where the new revision is the current one", 1)
+	fn := c.Func("(*db.DatabaseCollectionWithUser).storeOldBodyInRevTreeAndUpdateCurrent")
+	if fn == nil {
+		r.Fail("C14-R6", "anchor storeOldBodyInRevTreeAndUpdateCurrent", "-", "function not found")
+		return
+	}
+	// edges on which doc.GetRevTreeID() == newRevID (newRevID is a string parameter)
+	isWinner := EdgesWhere(fn, func(cond ssa.Value) (bool, bool) {
+		b, ok := cond.(*ssa.BinOp)
+		if !ok || (b.Op != token.EQL && b.Op != token.NEQ) {
+			return false, false
+		}
+		isCur := func(v ssa.Value) bool {
+			cc, ok := v.(*ssa.Call)
+			return ok && strings.HasSuffix(c.CalleeName(cc), ".GetRevTreeID")
+		}
+		isNew := func(v ssa.Value) bool {
+			p, ok := v.(*ssa.Parameter)
+			return ok && types.Identical(p.Type().Underlying(), types.Typ[types.String])
+		}
+		if (isCur(b.X) && isNew(b.Y)) || (isCur(b.Y) && isNew(b.X)) {
+			return true, b.Op == token.EQL
+		}
+		return false, false
+	})
+	n := 0
+	for _, call := range c.Calls(fn, false, nameIs("(*db.Document).SetAttachments")) {
+		a := callArgs(call)
+		if len(a) == 0 {
+			continue
+		}
+		// only the assignment from the NEW revision's attachments
+		fromNew := DependsOn(a[len(a)-1], func(v ssa.Value) bool {
+			cc, ok := v.(*ssa.Call)
+			if !ok || !strings.HasSuffix(c.CalleeName(cc), ".Attachments") || len(cc.Call.Args) == 0 {
+				return false
+			}
+			p, isP := cc.Call.Args[0].(*ssa.Parameter)
+			return isP && p != fn.Params[3] // not the stored document itself (receiver, ctx, doc, …)
+		})
+		if !fromNew {
+			continue
+		}
+		n++
+		ok := len(isWinner) > 0 && DominatedBy(fn, call, NewAvoid().AddEdge(isWinner...))
+		r.Check("C14-R6", fmt.Sprintf("fn=storeOldBodyInRevTreeAndUpdateCurrent doc-attachments=new-revision's #%d only-if=new-revision-is-current", n), c.Pos(call.Pos()), ok,
+			"the current revision's attachment metadata is replaced only by a revision that becomes current", "the document-level attachment metadata is overwritten with the attachments of a revision that did not become the current one: the winner then reports the loser's attachments, and obsolete-attachment removal deletes the winner's attachment bodies")
+	}
+	if n == 0 {
+		r.Fail("C14-R6", "fn=storeOldBodyInRevTreeAndUpdateCurrent doc-attachments", c.Pos(fn.Pos()), "the assignment of the new revision's attachments to the document was not found")
 	}
 }
